@@ -15,7 +15,8 @@ RULE = ('Hypothesis draws nestings of literal result elements (own xmlns declara
         '(and expat), must be namespace-well-formed, give every element/attribute exactly the intended expanded name in order (attributes as a set, later '
         'xsl:attribute replacing earlier), and contain no declaration of an excluded namespace that nothing in its scope uses nor of the stylesheet side of '
         'an alias. Non-trivial: >= 2 namespaces and a collision (prefix re-bound, or an attribute whose requested prefix is taken / unavailable). '
-        'distinct = case text.')
+        'distinct = case text.'
+        ' The source elements that can be copied include one in no namespace that has no namespace declaration of its own (below xmlns="" of its parent).')
 ASSUMPTIONS = ['the 80-line interpreter of this instruction subset below defines the intended names (XSLT 7.1.1-7.1.4, 7.5)', 'Xerces / expat namespace processing']
 
 XSL = 'http://www.w3.org/1999/XSL/Transform'
